@@ -341,7 +341,7 @@ def fuzz_tier(ctx, run_case_fn, pid="C04"):
     env = dict(os.environ, VF_FUZZ_OUT=out, VERIF_REPO=REPO, PYTHONHASHSEED="0")
     cmd = [sys.executable, "-B", os.path.join(ROOT, "vf", "fuzz", "strconv.py"), f"-runs={runs}", f"-seed={ctx.hseed + 1}", "-max_len=64", corpus]
     try:
-        subprocess.run(cmd, env=env, cwd=ROOT, stdout=subprocess.DEVNULL, stderr=subprocess.DEVNULL, timeout=3600)
+        subprocess.run(cmd, env=env, cwd=ROOT, stdout=subprocess.DEVNULL, stderr=subprocess.DEVNULL, timeout=1500)
     except subprocess.TimeoutExpired:
         ctx.label("fuzz_tier_timeout")
     stats = {}
@@ -351,6 +351,7 @@ def fuzz_tier(ctx, run_case_fn, pid="C04"):
     ctx.label("fuzz_execs", stats.get("execs", 0))
     ctx.label("fuzz_accepted", stats.get("accepted", 0))
     ctx.label("fuzz_rejected", stats.get("rejected", 0))
+    ctx.label("fuzz_excluded_huge_exponent", stats.get("excluded_huge_exponent", 0))
     ctx.extra["fuzz_corpus_files"] = len(os.listdir(corpus))
     if os.path.exists(out):
         for line in open(out):
